@@ -416,6 +416,15 @@ class MultiplyOpHarness:
                     conds.append(z3.Implies(p[j] != 0, fn(o0) == fn(o1)))
             return conds
         # case split on the sign pattern of the touched mode (keeps each solver query small)
+        binary_modes = [j for j in range(k) if layout[j] in ("spin", "fermion")]
+        if len(binary_modes) >= 3:
+            for j in binary_modes:
+                eng.branch(n[j] == 0)
+                if not eng.branch(p[j] == 0):
+                    eng.branch(p[j] == 1)
+            if layout[i] in ("spin", "fermion"):
+                if not eng.branch(q == 1):
+                    eng.branch(q == -1)
         if layout[i] in ("boson", "ladder"):
             eng.branch(p[i] >= 0)
             eng.branch(q > 0)
@@ -495,6 +504,15 @@ class MultiplyOpHarness:
 
     def prove(self, eng, name, goal, hyps, detail=""):
         hyps = list(hyps)
+        # use the equalities `variable == constant` of the path condition as substitutions (sound: they are assumptions of the
+        # obligation anyway); after the case splits on binary modes this makes the amplitude terms nearly ground
+        subs = []
+        for c in eng.pc:
+            if z3.is_eq(c) and z3.is_const(c.arg(0)) and c.arg(0).decl().kind() == z3.Z3_OP_UNINTERPRETED and z3.is_int_value(c.arg(1)):
+                subs.append((c.arg(0), c.arg(1)))
+        if subs:
+            goal = z3.simplify(z3.substitute(goal, *subs))
+            hyps = [z3.simplify(z3.substitute(h, *subs)) for h in hyps]
         for z, c in getattr(eng, "zero_facts", []):
             apps = {}
 
@@ -595,6 +613,14 @@ class TermMapHarness(MultiplyOpHarness):
                 eng.assume(z3.And(p[j] >= -1, p[j] <= 1, n[j] >= 0, n[j] <= 1))
         coef = Coef(lambda occ: F(*occ), "f")
         self.p, self.F, self.n = p, F, n
+        # with many binary modes the amplitude identities are decided per occupation pattern (keeps every query small and
+        # the verdict independent of machine load)
+        binary = [j for j in range(k) if layout[j] in ("spin", "fermion")]
+        if len(binary) >= 3 and self.split_binary:
+            for j in binary:
+                eng.branch(n[j] == 0)
+                if not eng.branch(p[j] == 0):
+                    eng.branch(p[j] == 1)
         td = TermDict()
         env.set("new_terms", td)
         eng.assign(stmt.target, STup([STup([SI(x) for x in p]), coef]), env)
@@ -622,6 +648,7 @@ class TermMapHarness(MultiplyOpHarness):
         env.set("new_terms", td)
 
     assume_canonical = True
+    split_binary = False
     detail = ""
 
     def extra(self, eng, newp, newcoef, hyps):
@@ -651,6 +678,7 @@ class MultiplyExprHarness(TermMapHarness):
 
 class LinearizeHarness(TermMapHarness):
     method = "_linearize_binary_operators"
+    split_binary = True
     detail = "f(n_c) = (1-n_c) f(0) + n_c f(1) for n_c in {0,1}: the denotation is unchanged"
     assume_canonical = False
 
